@@ -92,6 +92,29 @@ def check_at_transform(spec, model, V, counters):
             V.add("per-obs-carried", how, f"{tn}.dist_node.per_obs = {tv.dist_node.per_obs}, original {it['dist'].get('per_obs', True)}")
 
 
+def check_image(spec, model, sim, V, where, counters):
+    """At every later step: the original variable is the image b(t) of the new variable under the
+    bijector at the *current* parameter values (closed form, float64)."""
+    with M.quiet_counters(model):
+        if any(n.outdated for n in model.nodes.values()):
+            return
+        rv = sim.ref.eval()
+    T = DO.ref_terms(spec, rv)
+    for t in T["terms"]:
+        if t["kind"] != "transformed":
+            continue
+        with M.quiet_counters(model):
+            xv = np.asarray(model.vars[t["orig"]].value, np.float64)
+        x_ref = np.asarray(t["x"], np.float64)
+        if xv.shape != x_ref.shape and xv.size != x_ref.size:
+            V.add("image-of-new-variable", "shape", f"{where}: {t['orig']} has shape {xv.shape}, b(t) has shape {x_ref.shape}")
+        elif not np.allclose(xv.reshape(x_ref.shape), x_ref, rtol=5e-5, atol=5e-6):
+            it = next(i for i in spec if i["name"] == t["orig"])
+            V.add("image-of-new-variable", f"later-step/{it['transform']['how']}/{it['transform']['bij'] or 'default:' + it['dist']['fam']}",
+                  f"{where}: {t['orig']} = {xv.tolist()} but b({t['name']} = {np.asarray(t['t']).tolist()}) = {x_ref.tolist()} at the current parameter values")
+        counters["image_checks"] = counters.get("image_checks", 0) + 1
+
+
 def execute(plan: dict) -> dict:
     V = Violations("C14")
     log = EventLog()
@@ -107,6 +130,7 @@ def execute(plan: dict) -> dict:
             break
         sim.apply(i, op)
         C02.check_density(spec, model, sim, {}, V, f"{op[0]}:#{i}", counters)
+        check_image(spec, model, sim, V, f"{op[0]}:#{i}", counters)
         if op[0] == "assign" and "_transformed" in op[1]:
             counters["probe.assigned_new_variable"] = counters.get("probe.assigned_new_variable", 0) + 1
     counters.update({k: v for k, v in sim.counters.items() if k.startswith("op.")})
